@@ -138,7 +138,7 @@ def run_c13(ctx):
         for st in states:
             by.setdefault(st["cl"], []).append(st)
         states = []
-        for cl, quota in (("Ctor", 1500), ("KeyError", 500), ("ValueError", 700), ("Either", 300)):
+        for cl, quota in (("Ctor", 1500), ("KeyError", 500), ("ValueError", 650), ("CtorOrValueError", 50), ("Either", 300)):
             pool = by.get(cl, [])
             states += rng.sample(pool, min(quota, len(pool)))
     tmp = tempfile.mkdtemp(prefix="sl_toml_")
